@@ -2,13 +2,13 @@
 
 use std::fmt::Debug;
 use std::io::ErrorKind;
-use std::net::{SocketAddr, SocketAddrV4, UdpSocket};
+use std::net::{SocketAddr, SocketAddrV4};
 use std::time::Duration;
 
 #[cfg(mainline_verif)]
-use crate::verif::Instant;
+use crate::verif::{Instant, UdpSocket};
 #[cfg(not(mainline_verif))]
-use std::time::Instant;
+use std::{net::UdpSocket, time::Instant};
 use tracing::{debug, trace, warn};
 
 use crate::common::{ErrorSpecific, Message, MessageType, RequestSpecific, ResponseSpecific};
